@@ -64,6 +64,7 @@ type Step struct {
 	D    int64    `json:"d,omitempty"`    // open/unary: deadline in ms (0 = none); tick: ms
 	Gate bool     `json:"gate,omitempty"` // unary: the server handler waits for "hu"
 	Ctx  string   `json:"ctxk,omitempty"` // open/unary: the kind of caller context (see newCtx)
+	At   string   `json:"at,omitempty"`   // open: the caller's context ends INSIDE NewStream's transport Write: "after-write" (cancelled right after the transport accepted the opener) | "after-write-deadline" (the deadline D passes there) | "blocked" (the Write is held up, the caller cancels, the Write is released)
 	H    *HOp     `json:"h,omitempty"`
 	Env  *EnvSpec `json:"env,omitempty"` // peer / cli: scripted envelope (Call = index of the call whose id it carries)
 	M    string   `json:"m,omitempty"`   // cli: method of the scripted envelope
@@ -96,24 +97,26 @@ type cwRig struct {
 	cc   *goat.ClientConn
 	srv  *goat.Server
 
-	mu          sync.Mutex
-	sendWFailed map[int]bool         // calls with an operation that failed with a transport write error (see classFor)
-	keepAlive   []context.CancelFunc // cancel functions of inner contexts (released when the scenario is over)
-	events      []string             // client API events since the last snapshot
-	hevents     []string             // handler events since the last snapshot
-	pend        map[string]bool
-	ctxs        []context.Context
-	cancels     []context.CancelFunc
-	deadline    []time.Time // zero = none
-	expired     []bool
-	strs        []grpc.ClientStream
-	kinds       []string
-	ids         map[int]uint64
-	payloads    []int64
-	nCalls      int
-	handlers    map[int]*cwHandler
-	ugates      map[int64]chan struct{}
-	serveRet    bool
+	mu            sync.Mutex
+	sendWFailed   map[int]bool         // calls with an operation that failed with a transport write error (see classFor)
+	keepAlive     []context.CancelFunc // cancel functions of inner contexts (released when the scenario is over)
+	onWriteCancel int                  // >= 0: the call whose context is cancelled inside the next client Write
+	onWriteGate   chan struct{}        // non-nil: the next client Write returns only when the gate is closed
+	events        []string             // client API events since the last snapshot
+	hevents       []string             // handler events since the last snapshot
+	pend          map[string]bool
+	ctxs          []context.Context
+	cancels       []context.CancelFunc
+	deadline      []time.Time // zero = none
+	expired       []bool
+	strs          []grpc.ClientStream
+	kinds         []string
+	ids           map[int]uint64
+	payloads      []int64
+	nCalls        int
+	handlers      map[int]*cwHandler
+	ugates        map[int64]chan struct{}
+	serveRet      bool
 	// the stream loop held at the yield point cs.loop.read
 	loopArmed bool
 	loopGate  chan struct{}
@@ -444,6 +447,20 @@ func (r *cwRig) do(a Step) []string {
 		k := fmt.Sprintf("(%d, 0)", c)
 		r.setPending(k, true)
 		kind := a.Kind
+		var gate chan struct{}
+		switch a.At {
+		case "after-write":
+			r.mu.Lock()
+			r.onWriteCancel = c
+			r.mu.Unlock()
+		case "after-write-deadline":
+			r.mu.Lock()
+			r.onWriteGate = make(chan struct{})
+			gate = r.onWriteGate
+			r.mu.Unlock()
+		case "blocked":
+			r.link.C.BlockWrites()
+		}
 		go func() {
 			cs, err := r.cc.NewStream(ctx, kindDesc[kind], "/verif.Echo/"+kind)
 			r.mu.Lock()
@@ -452,6 +469,23 @@ func (r *cwRig) do(a Step) []string {
 			r.ev(fmt.Sprintf("EvOpenRet %d %s", c, optErr(err)))
 			r.setPending(k, false)
 		}()
+		switch a.At {
+		case "after-write":
+			return []string{"ANewStream false", fmt.Sprintf("ACancel %d", c)}
+		case "after-write-deadline":
+			// the transport has accepted the opener, its Write has not returned: the deadline passes
+			synctest.Wait()
+			time.Sleep(time.Duration(a.D)*time.Millisecond + time.Millisecond)
+			r.expired[c] = true
+			close(gate)
+			return []string{"ANewStream false", fmt.Sprintf("AExpire %d", c)}
+		case "blocked":
+			synctest.Wait()
+			r.cancels[c]()
+			synctest.Wait()
+			r.link.C.UnblockWrites()
+			return []string{"ANewStream false", fmt.Sprintf("ACancel %d", c)}
+		}
 		return []string{"ANewStream false"}
 	case "recv":
 		cs := r.stream(a.C)
@@ -1071,6 +1105,21 @@ func runCwScenario(t *testing.T, idx int, kind string, sc cwScenario, em *Emitte
 		cwBase = cwCensusRaw()
 		rig = &cwRig{t: t, mode: sc.Mode, link: link, pend: map[string]bool{}, ids: map[int]uint64{},
 			handlers: map[int]*cwHandler{}, ugates: map[int64]chan struct{}{}}
+		rig.onWriteCancel = -1
+		fwd := link.C.OnWrite
+		link.C.OnWrite = func(w *Rpc) {
+			fwd(w)
+			rig.mu.Lock()
+			k, g := rig.onWriteCancel, rig.onWriteGate
+			rig.onWriteCancel, rig.onWriteGate = -1, nil
+			rig.mu.Unlock()
+			if k >= 0 {
+				rig.cancels[k]() // the transport has accepted the envelope; its Write has not returned yet
+			}
+			if g != nil {
+				<-g
+			}
+		}
 		verifhook.SetYield(func(pt string) {
 			if pt != "cs.loop.read" {
 				return
@@ -1237,7 +1286,7 @@ func cwCaseCoq(ctor string, sc cwScenario, steps []string, c2s, s2c []*Rpc, rig 
 			ids = append(ids, coqU(rig.ids[c]))
 		}
 	}
-	mode := map[string]string{"e2e": "ME2E", "client": "MClient", "server": "MServer"}[sc.Mode]
+	mode := map[string]string{"e2e": "ME2E", "client": "MClient", "server": "MServer", "e2efree": "MFree"}[sc.Mode]
 	return fmt.Sprintf("%s %s %s %s %s %s", ctor, mode, coqList(steps), coqList(a), coqList(b), coqList(ids))
 }
 
